@@ -248,7 +248,13 @@ def grid_case(ctx, case, seen_basis=None, hist=None):
         table = {P: [float(v) for v in fobj.eval(P)] for P in pts}
     else:
         fobj = None
-        table = {P: [r.uniform(-1, 1) for _ in range(outlen)] for P in pts}
+        mode = int(case["seed"]) % 4
+        if mode == 1:      # integer-valued nodal data (labels, indicators, counts): python ints ...
+            table = {P: [r.randint(-3, 3) for _ in range(outlen)] for P in pts}
+        elif mode == 3:    # ... or numpy integer arrays; the surpluses of such data are not integers (missed seed C10_9: nodal array took the dtype of the values)
+            table = {P: np.array([r.randint(-3, 3) for _ in range(outlen)], dtype=np.int64) for P in pts}
+        else:
+            table = {P: [r.uniform(-1, 1) for _ in range(outlen)] for P in pts}
     vmax = max(1.0, max(abs(v) for row in table.values() for v in row))
     clause_id = "B.hist.reuse" if tag else "B.interp.identity"
     clause_col = "B.hist.reuse" if tag else "B.hier.collocation"
